@@ -221,6 +221,21 @@ private:
 };
 
 // harness filters (C16)
+// A user sink that keeps what it is given (rows of a CsvWriter built on a user-supplied sink; sink-registry histories)
+class RowSink : public quill::Sink
+{
+public:
+  void write_log(quill::MacroMetadata const*, uint64_t, std::string_view, std::string_view, std::string const&, std::string_view,
+                 quill::LogLevel, std::string_view, std::string_view, std::vector<std::pair<std::string, std::string>> const*,
+                 std::string_view, std::string_view log_statement) override
+  {
+    sim::yield_point(sim::K_SINK, 2);
+    rows.append(log_statement.data(), log_statement.size());
+  }
+  void flush_sink() override {}
+  std::string rows;
+};
+
 class HarnessFilter : public quill::Filter
 {
 public:
@@ -423,6 +438,12 @@ struct VM : VMBase
       bo.check_printable_char = {};
     }
     return bo;
+  }
+
+  static quill::MacroMetadata const& cyc_metadata()
+  {
+    static constexpr quill::MacroMetadata md{"vm.h:1", "vm", "cyc {}", nullptr, quill::LogLevel::Info, quill::MacroMetadata::Event::Log};
+    return md;
   }
 
   std::string logger_pattern(int slot) const
@@ -902,6 +923,60 @@ struct VM : VMBase
         break;
       }
       note_thread_logged(tid);
+      if (op.v[2] == 1)
+      {
+        // CsvWriter on a user-supplied sink that the user keeps referencing: when the writer's scope ends every row is in
+        // the sink, and a writer of the same name can be created at once
+        std::string const uname = "csvsink" + std::to_string(tid);
+        auto rs = std::make_shared<RowSink>();
+        std::string expected2, actual2;
+        for (int round = 0; round < 2; ++round)
+        {
+          expected2 += std::string(CsvSchema::header) + "\n";
+          {
+            quill::CsvWriter<CsvSchema, FO> w(uname, std::static_pointer_cast<quill::Sink>(rs));
+            for (int64_t k = 0; k < op.v[1]; ++k)
+            {
+              int64_t const rid = static_cast<int64_t>(tid) * 1000000 + opi * 100 + k + round * 50;
+              std::string cell = payload(static_cast<uint64_t>(rid), static_cast<size_t>(k % 17));
+              w.append_row(rid, cell, static_cast<double>(k) / 4.0);
+              expected2 += fmtquill::format("{},{},{:.2f}\n", rid, cell, static_cast<double>(k) / 4.0);
+            }
+          }
+          actual2 = rs->rows; // (read in the step in which the destructor returned)
+          if (actual2 != expected2)
+          {
+            break;
+          }
+        }
+        Ev& e2 = record(EV_CSV, 1000 + tid, op.v[1]);
+        e2.s = expected2;
+        e2.s2 = actual2;
+        break;
+      }
+      if (op.v[2] == 2)
+      {
+        // a history over one sink name: the user keeps its reference past a completed blocking removal, drops it (the registry
+        // then holds an expired entry), creates the name again and looks it up: one object, found every time
+        std::string const sname = "cycsink" + std::to_string(tid);
+        std::string const lname = "cyclg" + std::to_string(tid);
+        bool found = true, same = true;
+        QUILL_TRY
+        {
+          std::shared_ptr<quill::Sink> s1 = Fe::template create_or_get_sink<RowSink>(sname);
+          Lg* lc = Fe::create_or_get_logger(lname, s1, quill::PatternFormatterOptions{"%(message)"});
+          lc->template log_statement<false, false>(quill::LogLevel::None, &cyc_metadata(), static_cast<int64_t>(opi));
+          Fe::remove_logger_blocking(lc);
+          s1.reset();
+          std::shared_ptr<quill::Sink> s2 = Fe::template create_or_get_sink<RowSink>(sname);
+          std::shared_ptr<quill::Sink> s3 = Fe::template create_or_get_sink<RowSink>(sname);
+          std::shared_ptr<quill::Sink> s4 = Fe::get_sink(sname);
+          same = s2.get() == s3.get() && s3.get() == s4.get();
+        }
+        QUILL_CATCH(quill::QuillError const&) { found = false; }
+        record(EV_GET_SINK, 1000 + tid, found, same);
+        break;
+      }
       std::string const path = "csv" + std::to_string(op.v[0]) + ".csv"; // relative to the scratch directory (see run_plan_impl)
       std::string expected = std::string(CsvSchema::header) + "\n";
       {
